@@ -52,7 +52,9 @@ BinVal(op, a, b) ==
 
 ----------------------------------------------------------------------------
 (* relations *)
-Rel(h, rs, o) == [hdr |-> h, rows |-> rs, ord |-> o]
+\* keys: for an ordered relation, the ORDER BY key of each row (rows with equal keys may come in any order)
+Rel(h, rs, o) == [hdr |-> h, rows |-> rs, ord |-> o, keys |-> <<>>]
+RelK(h, rs, ks) == [hdr |-> h, rows |-> rs, ord |-> TRUE, keys |-> ks]
 Matches(h, t, c) == {i \in 1..Len(h) : h[i].c = c /\ (t = "" \/ h[i].t = t)}
 Lookup(h, row, t, c) == LET m == Matches(h, t, c) IN IF Cardinality(m) = 1 THEN row[CHOOSE i \in m : TRUE] ELSE ERR
 
@@ -206,6 +208,16 @@ LimitChoices(rows, keys, lim, off) ==
       Nth(T, m) == CHOOSE p \in T : Cardinality({x \in T : x < p}) = m - 1
   IN IF lim < 0 /\ off < 0 THEN {rows}
      ELSE {[m \in 1..Cardinality(T) |-> rows[Nth(T, m)]] : T \in Adm}
+\* the same choice applied to the keys (LimitChoices is deterministic in T, so we recompute positions)
+LimitPos(n, keys, lim, off) ==
+  LET o == IF off < 0 THEN 0 ELSE off
+      lo == IF o > n THEN n ELSE o
+      hi == IF lim < 0 THEN n ELSE IF o + lim > n THEN n ELSE o + lim
+      W == (lo + 1)..hi
+      G(i) == {j \in 1..n : keys[j] = keys[i]}
+  IN IF lim < 0 /\ off < 0 THEN {1..n}
+     ELSE {T \in SUBSET (1..n) : \A i \in 1..n : Cardinality(T \cap G(i)) = Cardinality(W \cap G(i))}
+PickSeq(s, T) == [m \in 1..Cardinality(T) |-> s[CHOOSE p \in T : Cardinality({x \in T : x < p}) = m - 1]]
 
 EvalSelect(q, src, ctx) ==
   IF IsErrRel(src) THEN {Rel(<<>>, <<<<ERR>>>>, FALSE)} ELSE
@@ -260,7 +272,9 @@ EvalSelect(q, src, ctx) ==
       anyErr == werr \/ IsErrRel(src) \/ (\E i \in 1..Len(sorted) : \E j \in 1..Len(sorted[i].row) : sorted[i].row[j] = ERR)
                      \/ (\E i \in 1..Len(sorted) : \E j \in 1..Len(sorted[i].key) : sorted[i].key[j] = ERR)
   IN IF anyErr THEN {Rel(hdrOut, <<<<ERR>>>>, FALSE)}
-     ELSE {Rel(hdrOut, rs, q.order # <<>> \/ keepOrder) : rs \in LimitChoices(rowsS, keysS, q.limit, q.offset)}
+     ELSE {IF q.order # <<>> \/ keepOrder THEN RelK(hdrOut, PickSeq(rowsS, T), PickSeq(keysS, T))
+                                                ELSE Rel(hdrOut, PickSeq(rowsS, T), FALSE)
+           : T \in LimitPos(Len(rowsS), keysS, q.limit, q.offset)}
 
 EvalQ(q, ctx) ==
   IF q.q = "setop"
@@ -282,5 +296,13 @@ EvalQ(q, ctx) ==
        IN UNION {EvalSelect(q, src, c2) : src \in EvalFrom(q.from, c2)}
 
 \* comparing an observed / planned relation with an admissible one
-SameAnswer(a, b) == IF a.ord /\ b.ord THEN a.rows = b.rows ELSE SameBag(a.rows, b.rows)
+\* `a` carries its rows in an order that `b` (an admissible ordered answer) allows: equal as bags inside every
+\* maximal run of equal ORDER BY keys of b
+SameOrdered(a, b) ==
+  /\ Len(a.rows) = Len(b.rows)
+  /\ \A i \in 1..Len(b.rows) :
+        LET run == {j \in 1..Len(b.rows) : b.keys[j] = b.keys[i]} IN
+        SameBag(SelectSeq([j \in 1..Len(b.rows) |-> IF j \in run THEN a.rows[j] ELSE <<>>], LAMBDA x : x # <<>>),
+                SelectSeq([j \in 1..Len(b.rows) |-> IF j \in run THEN b.rows[j] ELSE <<>>], LAMBDA x : x # <<>>))
+SameAnswer(a, b) == IF b.ord THEN a.ord /\ SameOrdered(a, b) ELSE SameBag(a.rows, b.rows)
 =============================================================================
